@@ -1,5 +1,6 @@
 import Typegen.Topo
 import Typegen.Kahn
+import Typegen.Order
 /-! # C20 — dependency ordering routines are correct on every graph
 
 Property theorems only; the model is `D.visit`/`D.topoSort` (mirror of
@@ -53,6 +54,19 @@ theorem C20_kahn_ok_iff {α : Type} [DecidableEq α] (nodes : List α) (edges : 
     (hN : nodes.Nodup) (hE : ∀ e ∈ edges, e.1 ∈ nodes ∧ e.2 ∈ nodes) :
     (K.kahn nodes edges).isSome ↔ K.Acyclic edges :=
   K.kahn_ok_iff nodes edges hN hE
+
+/-- the routine as it is now (fix dcbafc3): requested names and every dependency set are visited in sorted
+    order.  The order theorem holds for it as an instance (sorting neither adds nor drops names), and the
+    result no longer depends on the hash iteration orders at all (C13_zod_order_invariant). -/
+theorem C20_sorted_instance (deps : Str → List Str) (fuel : Nat) (types : List Str)
+    (hex : (D.topoSort (fun n => O.sortNames (deps n)) fuel (O.sortNames types)).exhausted = false) :
+    let out := (D.topoSort (fun n => O.sortNames (deps n)) fuel (O.sortNames types)).sorted
+    out.Nodup ∧ (∀ t ∈ types, t ∈ out) ∧ (∀ u ∈ out, ∀ v ∈ deps u, v ∈ out) ∧
+    (∀ u ∈ out, ∀ v ∈ deps u, ¬ D.Reaches (fun n => O.sortNames (deps n)) v u →
+      @List.idxOf Str instBEqOfDecidableEq v out < @List.idxOf Str instBEqOfDecidableEq u out) := by
+  obtain ⟨h1, h2, h3, h4⟩ := D.topo_edge_order (fun n => O.sortNames (deps n)) fuel (O.sortNames types) hex
+  exact ⟨h1, fun t ht => h2 t (O.sortNames_mem.mpr ht), fun u hu v hv => h3 u hu v (O.sortNames_mem.mpr hv),
+    fun u hu v hv hr => h4 u hu v (O.sortNames_mem.mpr hv) hr⟩
 
 /-! Non-vacuity: the hypotheses are met by concrete non-trivial inputs, and the reading chosen for
     "every dependency before its dependents" (direct edges, up to common cycles) is the only one a DFS
